@@ -370,3 +370,39 @@ Definition fs_of_node (n : node) (p : path) : kind :=
 
 Definition ls_of_node (n : node) (p : path) : list str :=
   match node_at n p with Some (Node _ ch) => map fst ch | None => [] end.
+
+(* '.' * level + '.'.join(comps): how a (possibly relative) dotted module name is written *)
+Fixpoint dotted (comps : list str) : str :=
+  match comps with
+  | [] => []
+  | [c] => c
+  | c :: r => c ++ dot :: dotted r
+  end.
+Definition render (level : nat) (comps : list str) : str := repeat dot level ++ dotted comps.
+(* a component: non-empty, no dot *)
+Definition comp_ok (c : str) : bool := negb (is_nil c) && negb (has_dot c).
+
+(* A suffix list in which no suffix stands before a longer one that ends with it: then the first
+   matching suffix (supp) is the longest matching suffix (inspect.getmodulename). *)
+Fixpoint sfx_ordered (l : list str) : bool :=
+  match l with
+  | [] => true
+  | s :: r => forallb (fun s' => negb (ends_with s' s && (length s <? length s'))) r && sfx_ordered r
+  end.
+
+Section FS2.
+  Variable fs : path -> kind.
+  Variable ls : path -> list str.
+  Variable sfx : list str.
+  (* entry_ok without the clause "first matching suffix = longest matching suffix" *)
+  Definition entry_ok2 (d : path) (name : str) : bool :=
+    match modname sfx name with
+    | Some _ => isfile fs (d ++ [name])
+    | None => if isdir fs (d ++ [name])
+              then Bool.eqb (existsb (fun fn => opt_is (modname sfx fn) init_stem) (ls (d ++ [name])))
+                            (isfile fs (d ++ [name; init_py])) &&
+                   Bool.eqb (exists_ fs (d ++ [name; init_py])) (isfile fs (d ++ [name; init_py]))
+              else negb (exists_ fs (d ++ [name; init_py]))
+    end.
+  Definition dir_ok2 (d : path) : bool := forallb (entry_ok2 d) (listdir fs ls d).
+End FS2.
